@@ -134,7 +134,8 @@ def run_shard(check_mod, part_index, tier, seed, shard, excluded_names):
 
     mod = importlib.import_module(check_mod)
     part = mod.PARTS[part_index]
-    preds = [(n, mod.EXCLUDED[n]) for n in excluded_names]
+    # a part may carry its own, weaker oracle for the class of a known finding (then the class is not dropped there)
+    preds = [(n, mod.EXCLUDED[n]) for n in excluded_names if n not in getattr(part, "handles_excluded", ())]
     res = ShardResult()
     t0 = time.time()
     budget = part.budget(tier)
